@@ -699,6 +699,27 @@ theorem group_additivity_rate (p : Rt) (inj : Bool) (dt : K) (f : Forest K)
     rw [← ihr hnr hp.2.2, evalRate_forest p inj kids dt hnk (kids.facs_nonneg hp.2.1 1 zero_le_one)]
     ring
 
+/-- A history whose group tree changes between evaluations: evaluation `i` sees the forest `h.1` of
+its own report step (step length `h.2`).  The accumulated group / field total is the initial value
+plus, per evaluation, factor × (Σ over the children in the tree *of that evaluation*) × step length —
+nothing of an earlier tree enters a later step. -/
+theorem group_total_changing_trees (key : String) (htot : stateIsTotal key = true) (f : K)
+    (p : Rt) (inj : Bool) (hs : List (Forest K × K)) (t0 : K)
+    (hn : ∀ h ∈ hs, h.1.names.Nodup) (hp : ∀ h ∈ hs, h.1.NonNeg) :
+    accumulate key f (.mul (.rate p inj) .duration) (hs.map (fun h => forestCtx h.1 h.2)) t0 =
+      some (t0 + (hs.map (fun h => f * ((h.1.rateItems p inj h.2).sum * h.2))).sum) := by
+  rw [cumulative_steps key htot f (.rate p inj) _ t0 (by intro c _; simp [evalE])]
+  rw [List.map_map]
+  have hm : List.map ((fun c : Ctx K => f * (((evalE c (.rate p inj)).getD 0) * c.dt)) ∘
+        fun h : Forest K × K => forestCtx h.1 h.2) hs =
+      List.map (fun h : Forest K × K => f * ((h.1.rateItems p inj h.2).sum * h.2)) hs := by
+    apply List.map_congr_left
+    intro h hh
+    simp only [Function.comp, evalE, Option.getD_some]
+    rw [group_additivity_rate p inj h.2 h.1 (hn h hh) (hp h hh)]
+    rfl
+  rw [hm]
+
 /-! ### the forest and the parent walk agree -/
 
 /-- the wells of a forest with the (name, factor) of the enclosing groups, innermost first,
